@@ -241,6 +241,7 @@ func trunc(s string) string {
 func run(r *core.Run) {
 	r.Rule = "literal codec: byte strings (random over all 256 values, boundary: every escaped byte, the \\x prefix, quotes, long) through the real printer and tokenizer vs the model; statements: Acra's own parser test tables (read from sqlparser/*_test.go), one template per clause/expression form × literal spellings × dialects, and text splices of printed sub-expressions into every expression position; a case is non-trivial when the statement parses; distinct by text"
 	runLiterals(r)
+	runIdents(r)
 	runStatements(r)
 }
 
@@ -330,6 +331,71 @@ func runLiterals(r *core.Run) {
 	}
 	r.Extra["literal_values"] = len(vals)
 	r.Extra["scanner_inputs"] = len(ins)
+}
+
+// ---------- quoted identifiers ----------
+
+func runIdents(r *core.Run) {
+	rd := r.Rand
+	alphabet := []byte{'`', '"', 'a', 'B', ' ', '.', '\\', '\'', '1', '_', '%', '-'}
+	// identifiers are valid UTF-8 (MySQL's formatIDForDialect iterates runes: an invalid byte would become U+FFFD)
+	names := [][]byte{[]byte("é"), []byte("naïve col"), []byte("`é`"), []byte("日本\"語")}
+	for _, a := range alphabet {
+		names = append(names, []byte{a})
+		for _, b := range alphabet {
+			names = append(names, []byte{a, b}, []byte{'x', a, b, 'y'})
+		}
+	}
+	for i := 0; i < r.N(300, 10000); i++ {
+		n := 1 + rd.Intn(12)
+		b := make([]byte, n)
+		for j := range b {
+			b[j] = core.Pick(rd, alphabet)
+		}
+		names = append(names, b)
+	}
+	suffixes := []string{"", " ", ".x", ", b", ")", "\n"}
+	for _, name := range names {
+		for _, d := range []string{"my", "pg"} {
+			// MySQL: only names the printer has to escape are printed in quotes (a plain name is printed bare)
+			if d == "my" && plainName(name) {
+				continue
+			}
+			r.Begin("ident:"+d+":"+core.Hex(name), true, "stream:structured", "ident:roundtrip")
+			q := core.UnHex(r.Do("C13.ident.quote " + d + " " + core.Hex(name)))
+			if !r.Check(len(q) >= 2, "ident-print-shape", fmt.Sprintf("identifier %q printed as %q", name, q)) {
+				continue
+			}
+			suf := core.Pick(rd, suffixes)
+			in := append(append([]byte{}, q[1:]...), suf...)
+			got := r.Do("C13.ident.scan " + d + " " + core.Hex(in))
+			want := "ok " + core.Hex(name) + " " + core.Hex([]byte(suf))
+			r.Check(got == want, "ident-roundtrip", fmt.Sprintf("[%s] scan(print(%q)+%q) = %s, want %s", d, name, suf, got, want))
+		}
+	}
+	// scanner on arbitrary inputs
+	for i := 0; i < r.N(300, 8000); i++ {
+		n := rd.Intn(10)
+		b := make([]byte, n)
+		for j := range b {
+			b[j] = core.Pick(rd, alphabet)
+		}
+		r.Begin("identscan:"+core.Hex(b), n > 0, "stream:malformed", "ident:scan")
+		r.Do("C13.ident.scan my " + core.Hex(b))
+		r.Do("C13.ident.scan pg " + core.Hex(b))
+	}
+}
+
+func plainName(b []byte) bool {
+	for i, c := range b {
+		switch {
+		case c >= 'a' && c <= 'z', c >= 'A' && c <= 'Z', c == '_', c == '@':
+		case c >= '0' && c <= '9' && i > 0:
+		default:
+			return false
+		}
+	}
+	return len(b) > 0
 }
 
 // ---------- statements ----------
